@@ -11,7 +11,7 @@ CHUNK = 2
 DT = 0.125
 STEPS = 8
 
-CIRCUITS = ['two', 'three']
+CIRCUITS = ['two', 'three']   # + 'par' (parallel edges) for the pmap 'par_edge'
 PMAPS = {
     'node': {'k': {'vars': ['so/k'], 'nodes': ['a']}},
     'node_multi': {'k': {'vars': ['so/k'], 'nodes': ['a', 'b']}},
@@ -19,6 +19,9 @@ PMAPS = {
     'edge': {'w': {'vars': ['weight'], 'edges': [['a/so/x', 'b/to/u']]}},
     'both': {'k': {'vars': ['so/k'], 'nodes': ['b']}, 'w': {'vars': ['weight'], 'edges': [['a/so/x', 'b/to/u']]}},
     'init': {'x0': {'vars': ['so/x'], 'nodes': ['a']}, 'k': {'vars': ['so/k'], 'nodes': ['a']}},
+    # the second of two parallel edges between one pair of variables, addressed by its index
+    'par_edge': {'w': {'vars': ['weight'], 'edges': [['a/so/x', 'b/to/u', 1]]}},
+    'par_edge0': {'w': {'vars': ['weight'], 'edges': [['a/so/x', 'b/to/u', 0]]}, 'k': {'vars': ['so/k'], 'nodes': ['a']}},
     'three': {'k': {'vars': ['so/k'], 'nodes': ['b']}, 'w': {'vars': ['weight'], 'edges': [['a/so/x', 'b/to/u']]},
               'x0': {'vars': ['so/x'], 'nodes': ['a']}},
 }
@@ -33,6 +36,10 @@ def build(name):
     if name == 'two':
         return CircuitTemplate('net', nodes={'a': n, 'b': n},
                                edges=[('a/so/x', 'b/to/u', None, {'weight': 2.0}), ('b/so/x', 'a/to/u', None, {'weight': 0.5})])
+    if name == 'par':
+        return CircuitTemplate('net', nodes={'a': n, 'b': n},
+                               edges=[('a/so/x', 'b/to/u', None, {'weight': 2.0}), ('a/so/x', 'b/to/u', None, {'weight': -0.75}),
+                                      ('b/so/x', 'a/to/u', None, {'weight': 0.5})])
     return CircuitTemplate('net', nodes={'a': n, 'b': n, 'cc': n},
                            edges=[('a/so/x', 'b/to/u', None, {'weight': 2.0}), ('cc/so/x', 'b/to/u', None, {'weight': -0.25}),
                                   ('b/so/x', 'cc/to/u', None, {'weight': 1.25})])
@@ -40,8 +47,10 @@ def build(name):
 
 def cases(tier, seed):
     out = []
-    for circ in CIRCUITS:
+    for circ in CIRCUITS + ['par']:
         for pm in PMAPS:
+            if (circ == 'par') != pm.startswith('par_edge'):
+                continue
             keys = list(PMAPS[pm])
             grids = []
             for n in (2, 3):
@@ -133,9 +142,13 @@ def run_case(case):
                     for v in pm['vars']:
                         node_updates[f'{n}/{v}'] = val
             else:
-                for s, t in pm['edges']:
+                for s, t, *eidx in pm['edges']:
                     for v in pm['vars']:
-                        edge_updates.append((s, t, {v: val}))
+                        if eidx:
+                            # the idx-th of several parallel edges: written into that edge's own attribute dictionary
+                            c.get_edge(s, t, eidx[0])[3][v] = val
+                        else:
+                            edge_updates.append((s, t, {v: val}))
         c.update_var(node_vars=node_updates, edge_vars=edge_updates)
         kw2 = dict(kw)
         kw2.pop('simulation_time')
